@@ -228,7 +228,7 @@ func startFixture(base string, pin string, kinds []string, nExtra int, stored []
 	return f, nil
 }
 
-var stringTokens = []string{"", " HTTP/1.0", " speaks HTTP/1.0 and HTTP/1.0", " HTTP/1.1 200 OK", " EVENT/1.0", "\r\n\r\n", " Content-Length: 3", ` \u003c`, " <&>", ` "q" \`, " é😀\u2028"}
+var stringTokens = []string{"", " HTTP/1.0", " speaks HTTP/1.0 and HTTP/1.0", " HTTP/1.1 200 OK", " EVENT/1.0", "\r\n\r\n", " Content-Length: 3", ` \u003c`, " <&>", ` "q" \`, " é😀\u2028", " open 50%", " %s %d %v %!", " 100%% %x%n"}
 
 // newValue draws a value of the characteristic's type and range that differs from cur.
 func newValue(c *chr, rnd *rand.Rand, uniq string) interface{} {
